@@ -93,7 +93,7 @@ func ruleSpecConstants(c *Ctx, r *Report, prefix string) {
 		ok := false
 		if init := c.Pkg("lzma").Func("init"); init != nil {
 			vals := map[string]string{}
-			for _, b := range init.Blocks {
+			for _, b := range theCtx.GB(init) {
 				for _, ins := range b.Instrs {
 					if st, isSt := ins.(*ssa.Store); isSt {
 						if fa, isFA := st.Addr.(*ssa.FieldAddr); isFA && fa.X == g {
@@ -115,7 +115,7 @@ func ruleSpecConstants(c *Ctx, r *Report, prefix string) {
 			continue
 		}
 		ok := false
-		for _, b := range fn.Blocks {
+		for _, b := range theCtx.GB(fn) {
 			for _, ins := range b.Instrs {
 				if call, isC := ins.(*ssa.Call); isC && stdCalleeName(call) == h.callee {
 					ok = h.arg == "" || roleGlobalLoad(c.Global("", h.arg))(call.Call.Args[0])
@@ -127,7 +127,7 @@ func ruleSpecConstants(c *Ctx, r *Report, prefix string) {
 	if g := c.Global("", "crc64Table"); g != nil {
 		ok := false
 		if init := c.Pkg("").Func("init"); init != nil {
-			for _, b := range init.Blocks {
+			for _, b := range theCtx.GB(init) {
 				for _, ins := range b.Instrs {
 					if call, isC := ins.(*ssa.Call); isC && stdCalleeName(call) == "hash/crc64.MakeTable" {
 						if k, isK := call.Call.Args[0].(*ssa.Const); isK && k.Value != nil && k.Value.ExactString() == "14514072000185962306" {
@@ -159,7 +159,7 @@ func ruleSpecConstants(c *Ctx, r *Report, prefix string) {
 			continue
 		}
 		ok := false
-		for _, b := range fn.Blocks {
+		for _, b := range theCtx.GB(fn) {
 			for _, ins := range b.Instrs {
 				if st, isSt := ins.(*ssa.Store); isSt {
 					if fa, isFA := st.Addr.(*ssa.FieldAddr); isFA && fieldOfAddr(fa).Name() == "nrange" {
@@ -180,7 +180,7 @@ func globalByteInit(c *Ctx, g *ssa.Global) ([]byte, bool) {
 	if init == nil {
 		return nil, false
 	}
-	for _, b := range init.Blocks {
+	for _, b := range theCtx.GB(init) {
 		for _, ins := range b.Instrs {
 			st, ok := ins.(*ssa.Store)
 			if !ok || st.Addr != g {
@@ -353,7 +353,7 @@ func ruleCodecGeometry(c *Ctx, r *Report, prefix string) {
 	// literal coder stride 0x300 << (lc+lp): checked through the make size in init
 	if fn := c.Func("lzma", "literalCodec.init"); fn != nil {
 		ok := false
-		for _, b := range fn.Blocks {
+		for _, b := range theCtx.GB(fn) {
 			for _, ins := range b.Instrs {
 				if ms, isM := ins.(*ssa.MakeSlice); isM {
 					if bo, isB := stripConv(ms.Len).(*ssa.BinOp); isB && bo.Op == token.SHL && roleConst(0x300)(bo.X) {
